@@ -191,7 +191,7 @@ OPS = {
                 nontrivial=_nontrivial, mode="exact"),
     "match_matrix": Op("match_matrix", _impl_matrix, to_model=_matrix_args, compare=_mk_compare(_matrix_args),
                        holds=_mk_holds(_matrix_args, Fraction(0)), determined=False, nontrivial=_nontrivial,
-                       mode="exact", model_op="match"),
+                       mode="exact", model_op="match", shrink=True),
 }
 
 
@@ -318,12 +318,21 @@ def _random_matrices(rng, count, nmax):
 
 
 # ---------------------------------------------------------------- run / search
-def run(ctx):
-    global _CTX
-    _CTX = ctx
-    _CACHE.clear()
-    ctx.run_corpus(OPS)
-    nmax = ctx.budget(5, 7)
+def _stub_selftest():
+    """the matrix operation replaces `compute_affinity` inside soundevent.evaluation.match; if the code no
+    longer reaches the affinity through that name the stub is ineffective and the stage must not run"""
+    import soundevent.evaluation.match as M
+    if not hasattr(M, "compute_affinity") or not hasattr(M, "match_geometries"):
+        raise RuntimeError("soundevent.evaluation.match no longer exposes compute_affinity / match_geometries")
+    probe = {"n": 2, "m": 2, "matrix": [["1/4", "1"], ["1/2", "1/4"]]}
+    out = _impl_matrix(probe)["val"]
+    vals = sorted(e[2] for e in out if e[0] is not None and e[1] is not None)
+    if vals != ["1", "1/2"]:
+        raise RuntimeError(f"stub of compute_affinity is not effective (got {out})")
+
+
+def _stage_matrices(ctx, nmax):
+    _stub_selftest()
     # stubbed-affinity matrices: exhaustive small scopes, then random (ties, zero rows/columns)
     if ctx.thorough():
         ctx.run_cases(OPS["match_matrix"], _exhaustive_matrices(["0", "1/4", "1/2", "1"], 9))
@@ -335,16 +344,34 @@ def run(ctx):
         ctx.exhaustive["match_matrix"] = ("all n x m matrices with n*m <= 6, (n, m) in {0..3}^2, entries in {0, 1/4, 1/2, 1}; "
                                           "a fifth of all 3 x 3 matrices over {0, 1/2, 1}")
     ctx.run_cases(OPS["match_matrix"], _random_matrices(ctx.rng, ctx.budget(1500, 12000), nmax))
-    # real geometries
+
+
+def _stage_lists(ctx):
     ctx.run_cases(OPS["match"], _exhaustive_lists(_POOL[:ctx.budget(5, 6)], 2))
     ctx.exhaustive["match"] = f"all source/target lists of length 0..2 over a pool of {ctx.budget(5, 6)} boxes/intervals"
-    ctx.run_cases(OPS["match"], _grid_cases(ctx.rng, ctx.budget(500, 5000), nmax))
-    ctx.run_cases(OPS["match"], _free_cases(ctx.rng, ctx.budget(150, 2000), min(nmax, 5)))
+
+
+def run(ctx):
+    global _CTX
+    _CTX = ctx
+    _CACHE.clear()
+    nmax = ctx.budget(5, 7)
+    stub_ok = ctx.stage("stub of compute_affinity inside soundevent.evaluation.match", lambda: _stub_selftest() or True)
+    ctx.stage("corpus", ctx.run_corpus, OPS if stub_ok else {"match": OPS["match"]})
+    if stub_ok:
+        ctx.stage("affinity matrices through the real match_geometries (compute_affinity stubbed)",
+                  _stage_matrices, ctx, nmax)
+    ctx.stage("exhaustive short lists of real geometries", _stage_lists, ctx)
+    ctx.stage("tie-rich grid lists", lambda: ctx.run_cases(OPS["match"], _grid_cases(ctx.rng, ctx.budget(500, 5000), nmax)))
+    ctx.stage("free-mode lists", lambda: ctx.run_cases(OPS["match"], _free_cases(ctx.rng, ctx.budget(150, 2000), min(nmax, 5))))
 
 
 def search(ctx, failures):
-    """a correspondence or contract broke: widen every scope and let `holds` judge the real outputs"""
-    ctx.run_cases(OPS["match_matrix"], _exhaustive_matrices(["0", "1/2", "1"], 9))
-    ctx.run_cases(OPS["match_matrix"], _random_matrices(ctx.rng, 6000, 5))
-    ctx.run_cases(OPS["match"], _exhaustive_lists(_POOL, 2))
-    ctx.run_cases(OPS["match"], _grid_cases(ctx.rng, 2000, 5))
+    """a correspondence, contract or stage broke: widen every scope and let `holds` judge the real outputs"""
+    def matrices():
+        _stub_selftest()
+        ctx.run_cases(OPS["match_matrix"], _exhaustive_matrices(["0", "1/2", "1"], 9))
+        ctx.run_cases(OPS["match_matrix"], _random_matrices(ctx.rng, 6000, 5))
+    ctx.stage("search: matrices", matrices)
+    ctx.stage("search: short lists", lambda: ctx.run_cases(OPS["match"], _exhaustive_lists(_POOL, 2)))
+    ctx.stage("search: grid lists", lambda: ctx.run_cases(OPS["match"], _grid_cases(ctx.rng, 2000, 5)))
